@@ -279,10 +279,11 @@ def program_case(rng, tier, idx):
         if shape == "mix":
             funcs_x = add_funcs(arg, "x", lines, allow_exp=True, k=3)
         elif shape == "divergent":
-            lines.append(f"gx = Exp({arg})")
+            one = (lambda: r.choice(arg)) if isinstance(arg, list) else (lambda: arg)
+            lines.append(f"gx = Exp({one()})")
             funcs_x = [("gx", "Exp")]
             if r.random() < 0.5:
-                lines.append(f"cx = Cos({arg})")
+                lines.append(f"cx = Cos({one()})")
                 funcs_x.append(("cx", "Cos"))
         else:
             funcs_x = add_funcs(arg, "x", lines, allow_exp=use_exp)
